@@ -320,6 +320,71 @@ func (im *Impl) dump() []string {
 	return out
 }
 
+// physicalSanity checks what the chain model does not represent: every bucket of a chain has a valid,
+// distinct offset (main file: header + 512*i; overflow file: 512-aligned, inside the file), no bucket
+// is linked twice, linked buckets are disjoint from the free list, the free list has no duplicates,
+// numKeys equals the number of occupied slots, occupied slots form a prefix of every bucket.
+func (im *Impl) physicalSanity() string {
+	idx, err := pogreb.VerifIndexDump(im.DB)
+	if err != nil {
+		return "walk: " + err.Error()
+	}
+	seen := map[int64]bool{}
+	free := map[int64]bool{}
+	for _, off := range idx.Free {
+		if free[off] {
+			return fmt.Sprintf("offset %d twice in the free list", off)
+		}
+		if off < 512 || off%512 != 0 || off+512 > idx.OverflowSize {
+			return fmt.Sprintf("free offset %d outside the overflow file (size %d)", off, idx.OverflowSize)
+		}
+		free[off] = true
+	}
+	slots := 0
+	if int(idx.NumBuckets) != len(idx.Chains) {
+		return "numBuckets differs from the number of chains"
+	}
+	if idx.MainSize != 512+512*int64(idx.NumBuckets) {
+		return fmt.Sprintf("main file size %d for %d buckets", idx.MainSize, idx.NumBuckets)
+	}
+	for bi, chain := range idx.Chains {
+		for ci, b := range chain {
+			if ci == 0 {
+				if b.Offset != 512+512*int64(bi) {
+					return fmt.Sprintf("bucket %d at main offset %d", bi, b.Offset)
+				}
+			} else {
+				if b.Offset < 512 || b.Offset%512 != 0 || b.Offset+512 > idx.OverflowSize {
+					return fmt.Sprintf("overflow bucket of chain %d at offset %d (file size %d)", bi, b.Offset, idx.OverflowSize)
+				}
+				if seen[b.Offset] {
+					return fmt.Sprintf("overflow bucket %d linked twice", b.Offset)
+				}
+				if free[b.Offset] {
+					return fmt.Sprintf("overflow bucket %d is linked and in the free list", b.Offset)
+				}
+				seen[b.Offset] = true
+			}
+			empty := false
+			for _, sl := range b.Raw {
+				if sl.Offset == 0 {
+					empty = true
+				} else if empty {
+					return fmt.Sprintf("chain %d bucket %d: occupied slot after an empty one", bi, ci)
+				}
+			}
+			slots += len(b.Slots)
+		}
+	}
+	if slots != int(idx.NumKeys) {
+		return fmt.Sprintf("numKeys %d but %d occupied slots", idx.NumKeys, slots)
+	}
+	if want := uint32(1)<<idx.Level + idx.Split; want != idx.NumBuckets || idx.Split >= uint32(1)<<idx.Level {
+		return fmt.Sprintf("level %d split %d numBuckets %d", idx.Level, idx.Split, idx.NumBuckets)
+	}
+	return ""
+}
+
 func (im *Impl) dumpRecs() []string {
 	var out []string
 	for _, name := range im.FS.List(im.Dir) {
@@ -566,6 +631,13 @@ func (im *Impl) Exec(line string) (out []string) {
 		sort.Strings(parts)
 		return []string{"segbytes " + strings.Join(parts, ",")}
 	case "checkinv":
+		// implementation side: structural sanity of the real index files (the part of the physical
+		// layout the model abstracts from: overflow-bucket offsets and the free list)
+		if im.DB != nil {
+			if why := im.physicalSanity(); why != "" {
+				return []string{"checkinv PHYSICAL " + why}
+			}
+		}
 		return []string{"checkinv ok"}
 	case "dumpindex":
 		if im.DB == nil {
